@@ -6,7 +6,7 @@ cd "$(dirname "$0")/.." || exit 2
 mkdir -p replays/reverify
 one() { n=$1; pid=${n%%-*}; [ "$pid" = "C03b" ] && pid=C03
   python3 tools/verify_seed.py $pid "$PWD/seeded/$n" > replays/reverify/$n.log 2>&1
-  echo "$n $(grep -E '"(patch_applies|tests_passed_with_patch|detected|confirmed)"' replays/reverify/$n.log | tr -d '\n ')"; }
+  echo "$n $(grep -E '"(patch_applies|tests_passed_with_patch|detected|detected_with_input|confirmed)"' replays/reverify/$n.log | tr -d '\n ')"; }
 export -f one
 ls seeded | grep -E "$pat" | xargs -P$jobs -I{} bash -c 'one {}' | tee replays/reverify/summary.txt
-echo "not detected:"; grep -v '"detected":true' replays/reverify/summary.txt
+echo "not detected with a concrete input:"; grep -a -v '"detected_with_input":true' replays/reverify/summary.txt
